@@ -33,7 +33,8 @@ RULE = ("history of 6-25 registry operations over <=5 open models with names fro
         "(new/read/rename onto a taken name) happened while >=1 other model held values; distinct = case hash")
 ASSUMPTIONS = [
     "the registry reference is a dict from name to creation index, updated by the documented rules",
-    "closing an already closed handle and operating on closed models are outside the generated domain",
+    "closing an already closed handle may raise or do nothing (it must not touch the registry); other operations on "
+    "closed models are outside the generated domain",
 ]
 SIGNATURES = {}
 
@@ -53,7 +54,7 @@ def histories(draw):
     nmodels = 0
     nslots = 0
     for _ in range(draw(st.integers(6, 25))):
-        k = draw(st.integers(0, 13))
+        k = draw(st.integers(0, 14))
         idx = draw(st.integers(0, max(0, nmodels - 1)))
         if k <= 2 or nmodels == 0:
             ops.append(["new_model", draw(st.sampled_from(NAMES + [None, None]))])
@@ -63,6 +64,13 @@ def histories(draw):
             ops.append(["rename", idx, name, draw(st.booleans())])
         elif k == 5:
             ops.append(["close", idx])
+        elif k == 14:
+            if draw(st.booleans()):
+                ops.append(["close_again", idx])
+            else:
+                # close, let a new model take the name, close the old handle once more
+                ops += [["close", idx], ["new_model_like", idx], ["close_again", idx]]
+                nmodels += 1
         elif k == 6:
             ops.append(["write", idx, nslots, draw(st.booleans())])
             nslots += 1
@@ -177,6 +185,13 @@ def _run(case, out, root):
                   "held": {j: held(h) for j, h in enumerate(handles) if is_open[j]}}
         touched = set()
         nopen = sum(is_open)
+        if k == "new_model_like":
+            j = op[1]
+            if j >= len(handles) or is_open[j]:
+                # (keeps creation indices aligned with the generator's count)
+                k, op = "new_model", ["new_model", None]
+            else:
+                k, op = "new_model", ["new_model", handles[j].name]
         if k == "new_model":
             name = op[1]
             m = mx.new_model(name)
@@ -253,6 +268,16 @@ def _run(case, out, root):
             touched.add(j)
             # models holding a reference into the closed one are not asserted
             touched |= {a for a, b in xrefs if b == j}
+        elif k == "close_again":
+            # close() on the handle of a model that was closed earlier (its name may have been taken since)
+            j = op[1]
+            if j >= len(handles) or is_open[j]:
+                continue
+            try:
+                handles[j].close()
+            except Exception:
+                pass
+            out.count("stale_closes")
         elif k == "write":
             j = op[1]
             if j >= len(handles) or not is_open[j]:
